@@ -396,6 +396,9 @@ class Z:
                 raise ZeroDivisionError("division by literal zero")
             return num * z3.Q(den_s.denominator_as_long(), den_s.numerator_as_long())
         num_s = z3.simplify(num)
+        if z3.is_rational_value(num_s) and num_s.numerator_as_long() == 0:
+            _nonzero(den_s)
+            return _R0
         if z3.eq(num_s, den_s):
             _nonzero(den_s)
             return _R1
@@ -651,7 +654,7 @@ def _nonzero(den):
     """side condition of a division: numpy would give inf/nan — outside the claim (reals for
     floats, no non-finite data); recorded as an assumption of the path."""
     if have_ctl():
-        ctl().assume(den != 0, "division denominator non-zero")
+        ctl().assume(den != 0, "input: division denominator non-zero")
 
 
 # ------------------------------------------------------------------------------------------
